@@ -1378,14 +1378,19 @@ class Interp:
             if len(objs) != 1 or objs[0][0] is not st:
                 raise Unsupported("forking subscript-assignment target")
             obj = objs[0][1]
+            if isinstance(tgt.slice, ast.Slice) and hasattr(obj, "pyvc_setitem"):
+                e = tgt.slice
+                obj.pyvc_setitem(":" if e.lower is None and e.upper is None and e.step is None else "partial-slice", v, st, self, tgt)
+                return
             if isinstance(tgt.slice, ast.Tuple) and any(isinstance(e, ast.Slice) for e in tgt.slice.elts) and hasattr(obj, "pyvc_setitem"):
                 # numpy-style a[i, :] = row: full-axis slices are passed as the marker ":", the other indices evaluated
                 parts = []
                 for e in tgt.slice.elts:
                     if isinstance(e, ast.Slice):
                         if e.lower is not None or e.upper is not None or e.step is not None:
-                            raise Unsupported("partial slice in a multi-axis store")
-                        parts.append(":")
+                            parts.append("partial-slice")  # a[:, :k] = ...: only objects that model it accept this marker
+                        else:
+                            parts.append(":")
                     else:
                         ev = list(self.ev(e, st))
                         if len(ev) != 1:
